@@ -355,6 +355,15 @@ def run_streams(obs, case):
             obs.fail('stream_sampled_std', f'{np.std(x)} vs {want}')
         if abs(np.mean(x) - 0.1) > 6.5 * want / math.sqrt(40000):
             obs.fail('stream_sampled_mean', f'{np.mean(x)} vs 0.1')
+        # a measured estimate (update_noise) takes the place of the bookkeeping value; later noise adds to IT in quadrature
+        s.update_noise(20000)
+        est = float(s.noise_std)
+        if abs(est - want) > 6.5 * want / math.sqrt(2 * 20000):
+            obs.fail('stream_update_noise_estimate', f'{est} vs {want}')
+        s.add_noise(0.0, v1)
+        w3 = math.sqrt(est * est + v1 * v1)
+        if abs(s.noise_std - w3) > 1e-12 * w3 or abs(s.get_total_noise_std() - w3) > 1e-12 * w3:
+            obs.fail('stream_quadrature_after_update_noise', f'{s.noise_std} vs {w3}')
     else:
         arr = AN.MultiAntennaArray(num_antennas=2, sample_rate=1e6, num_pols=2, delays=[0, 3], seed=case['seed'])
         for a in arr.antennas:
@@ -380,3 +389,12 @@ def run_streams(obs, case):
             obs.fail('update_noise_estimate', f'{arr.bg_x.noise_std} vs {vb}')
         if any(a.x.bg_noise_std != arr.bg_x.noise_std for a in arr.antennas):
             obs.fail('update_noise_not_propagated', '')
+        est = float(arr.bg_x.noise_std)
+        arr.bg_x.add_noise(0, v2)
+        wb = math.sqrt(est * est + v2 * v2)
+        if abs(arr.bg_x.noise_std - wb) > 1e-12 * wb:
+            obs.fail('background_quadrature_after_update_noise', f'{arr.bg_x.noise_std} vs {wb}')
+        for a in arr.antennas:
+            wx = math.sqrt(v1 * v1 + wb * wb)
+            if abs(a.x.get_total_noise_std() - wx) > 1e-12 * wx or a.x.bg_noise_std != arr.bg_x.noise_std:
+                obs.fail('array_quadrature_x_after_update_noise', f'{a.x.get_total_noise_std()} vs {wx}')
